@@ -6,3 +6,4 @@ import SmtpV.Props.C04
 #print axioms SmtpV.Props.C04.C04_error_reply_and_notice
 #print axioms SmtpV.Props.C04.C04_lmtp_one_reply_per_recipient
 #print axioms SmtpV.Props.C04.C04_starttls_replies
+#print axioms SmtpV.Props.C04.C04_auth_replies
